@@ -399,6 +399,13 @@ impl<RW: QueueRW<T>, T> MultiQueue<RW, T> {
                         fence(Acquire);
                         vpoint!(R_W0);
                         if rm_tag(read_cell.wraps.load(Acquire)) != wrap_valid_tag {
+                            // On a shared stream the position examined may be stale:
+                            // siblings can have consumed past it and the slot been
+                            // reused. Only a current position proves the stream is done.
+                            if reader.load_count(Relaxed) != wrap_valid_tag {
+                                ctail_attempt = ctail_attempt.reload();
+                                continue;
+                            }
                             return Err((ptr::null(), TryRecvError::Disconnected));
                         }
                     }
